@@ -31,7 +31,9 @@ func (n Name) pack(msg []byte, off int, compression map[string]uint16) (int, err
 	scanner := NewNameScanner(n)
 	for scanner.Scan() {
 		seg := scanner.Label()
-		labelStart := scanner.LabelOff()
+		// The suffix key must start at the length octet. Otherwise two different
+		// suffixes whose bytes only differ in the first length octet share a key.
+		labelStart := scanner.LabelOff() - 1
 		// We can only compress domain suffixes starting with a new
 		// segment. A pointer is two bytes with the two most significant
 		// bits set to 1 to indicate that it is a pointer.
